@@ -5,6 +5,7 @@ from ..astutil import U, dotted, walk_local, is_self_attr, call_name, short, par
 from ..cfg import CFG, calls_at
 from ..guards import dominating_edges, cmp_parts
 from ..engmodel import ENGINE
+from ..dataflow import ReachingDefs
 from ..engai import EngineAI, UNK
 from ..source import AnalysisError
 
@@ -205,6 +206,34 @@ def run(ctx):
                  '%s[<index>] is assigned a new row object: %s is ordered by row id, so the modified instance moves to the end after the commit and the instances after it change their index' % (field, field))
     if not repl:
         ctx.ok('C15.R7', ENGINE, 'no attribute operation replaces a row of %s by index' % sorted(ordered))
+    # ---------------- R8 "no value given" is decided by None, not by truthiness, wherever the value can be an empty string
+    ctx.rule('C15.R8', 'in _delete_attribute_from_managed_object the choice between delete-by-value, delete-by-index and delete-all-instances tests the value with `is None` / `is not None` wherever the value can be a plain string (an arm that rebinds it to <decoded value>.value of a class that has such a field): an empty string is a value, and treating it as "no value" deletes every instance')
+    from ..factmodel import FactoryModel
+    fm8 = FactoryModel(src)
+    dfn = m.method('_delete_attribute_from_managed_object')
+    dg = CFG(dfn)
+    drd = ReachingDefs(dg)
+    n8 = 0
+    for tn in [x for x in dg.nodes if x.kind == 'test' and isinstance(x.stmt, ast.Name)]:
+        v8 = tn.stmt.id
+        # definitions reaching the truthiness test that are `<v>.value` reads in an arm for attribute name N whose decoded class has a `value` field
+        for var, val, dn in drd.reaching(tn, v8):
+            if not (isinstance(val, ast.Attribute) and val.attr == 'value' and isinstance(val.value, ast.Name)):
+                continue
+            names8 = []
+            for t_, lab_ in dominating_edges(dg, dn):
+                p_ = cmp_parts(t_.stmt)
+                if p_ and p_[1] == 'Eq' and lab_ == 'T' and isinstance(p_[2], ast.Constant) and isinstance(p_[2].value, str):
+                    names8.append(p_[2].value)
+            for nm8 in names8:
+                classes8 = fm8.classes_for_name(nm8)
+                feasible = bool(classes8) and all('value' in fm8.ix.fields(c8) for c8 in classes8)
+                if feasible:
+                    n8 += 1
+                    ctx.fail('C15.R8', 'KmipEngine._delete_attribute_from_managed_object|truthiness of %s for %s' % (v8, nm8), m.site(tn.stmt, dfn),
+                             'for attribute %r the value is rebound to the plain string <value>.value (line %s) and then tested by truthiness: DeleteAttribute with the empty string as current value falls through to "delete all instances"' % (nm8, getattr(val, 'lineno', '?')))
+    if n8 == 0:
+        ctx.ok('C15.R8', m.site(dfn, dfn), 'no string-valued attribute value is tested by truthiness')
     # ---------------- R4 an unsuccessful attribute operation changes nothing
     ctx.rule('C15.R4', 'in Set/Modify/DeleteAttribute (and the helpers they call) no failure is raised after the loaded object was modified: a call that reports failure leaves the stored object and all others untouched (the batch session is not rolled back, so a dirty instance would be written by the next commit)')
     n_r4 = 0
